@@ -11,6 +11,13 @@ var plans = map[string]*plan{
 		Real:   realA, Stub: append([]string{"scripted tq.Adapter (harness implementation of the public interface) in about half of the runs"}, stubA...),
 		Assume: []string{"synctest quiescence + one release per quiescent point makes the schedule a function of the tape", "short concurrent local-code segments between hooks commute", "a hang is decided by: no runnable goroutine and no pending timer inside the bubble"},
 	},
+	"C15": {
+		ID: "C15", Engine: "A", Level: "exploration",
+		Stages: []stage{{"C15", 24000, 1200000}, {"C15.single", 8000, 300000}},
+		Rule:   "queue workload as C06 with retry settings, Retry-After flavours, action expiry and concurrency drawn per run; oracle over the recorded history stamped with scheduler step and fake time. Non-trivial = a fault fired or a scheduling decision had >=2 candidates; distinct = distinct full choice trace.",
+		Real:   realA, Stub: append([]string{"scripted tq.Adapter in about half of the runs"}, stubA...),
+		Assume: []string{"client and server share the fake clock (no skew)", "bounds come from the documented meaning of lfs.transfer.maxretries / maxretrydelay, not from the implementation's constants"},
+	},
 }
 
 func runEngineB(p *plan, tier string, base uint64, workers int, scale float64, replay string) int {
